@@ -119,3 +119,17 @@ Print Assumptions C02_eval_text.
 Theorem C02_eval_fragment : forall e, evalb e = true -> arith e /\ lit_ok e.
 Proof. exact evalb_sound. Qed.
 Print Assumptions C02_eval_fragment.
+
+(* C02_parse / C02_rpn with array constants: [WFA] = [WF] plus {a,b;c,d} (one or
+   more rows of one or more constants — number, text, logical, error tokens) as
+   an operand anywhere in the tree; the pre-pass turns it into
+   ARRAY( ARRAYROW(a,b), ARRAYROW(c,d) ) and the tree is
+   EFunc ARRAY [EFunc ARRAYROW [a; b]; EFunc ARRAYROW [c; d]].  (A signed number
+   inside an array constant is two tokens and is not covered.) *)
+Theorem C02_parse_array : forall c, WFA c -> parse (flat c) = Some (abs c).
+Proof. exact parse_correct_array. Qed.
+Print Assumptions C02_parse_array.
+
+Theorem C02_rpn_array : forall c, WFA c -> sy (flat c) = Some (post c).
+Proof. exact sy_correct_array. Qed.
+Print Assumptions C02_rpn_array.
